@@ -39,12 +39,127 @@ type scriptCase struct {
 	Op       string   `json:"op"`
 	Seed     int64    `json:"seed"`
 	SameChan bool     `json:"same_channel"` // the observed connection uses the same channel as other #0
+	// Slow (cases with others in the state "connecting"): how the target of those connections is kept from accepting,
+	// "gate" (e2e.Gate) or "backlog" (e2e.Blackhole: a TCP listener with a full accept queue)
+	Slow string `json:"slow_target,omitempty"`
+	// ObsSlow: the observed connection goes to the gated channel itself (its target accepts this one at once)
+	ObsSlow bool `json:"observed_on_the_slow_channel,omitempty"`
+}
+
+// names of the two channels whose targets can be kept from accepting
+const gateChan, holeChan = "chs", "chb"
+
+// the slow-target fixture of a running pair (only pairs started for a case with Slow != "")
+var (
+	kitMu sync.Mutex
+	kits  = map[*e2e.Pair]*e2e.SlowKit{}
+)
+
+func kitOf(p *e2e.Pair) *e2e.SlowKit {
+	kitMu.Lock()
+	defer kitMu.Unlock()
+	return kits[p]
+}
+
+func closePair(p *e2e.Pair) {
+	k := kitOf(p)
+	if k != nil {
+		k.Gate.Release()
+	}
+	p.Close()
+	if k != nil {
+		k.Close()
+		kitMu.Lock()
+		delete(kits, p)
+		kitMu.Unlock()
+	}
+}
+
+// waitUntil waits, under the stall rule, for a state of the fixture to be reached.
+func waitUntil(cond func() bool) e2e.Outcome {
+	var stop int32
+	done := e2e.Go(func() {
+		for atomic.LoadInt32(&stop) == 0 {
+			if cond() {
+				e2e.Bump(1)
+				return
+			}
+			time.Sleep(5 * time.Millisecond)
+		}
+	})
+	o := e2e.Wait(done)
+	atomic.StoreInt32(&stop, 1)
+	return o
 }
 
 type held struct {
-	app, tgt net.Conn
+	app, tgt net.Conn // tgt is nil while the target has not accepted ("connecting")
 	stop     chan struct{}
 	key      uint64
+	tag      uint64 // "connecting" behind the gate: what the application has written so far
+}
+
+// holdConnecting opens a local connection for a channel whose target does not accept for the time being and waits
+// until the server is connecting to that target: from then on this logical connection is "being opened", for as long
+// as the coordinator likes. The application has already written its first bytes.
+func holdConnecting(p *e2e.Pair, c *scriptCase, i int, rec *vcommon.Rec) (*held, *e2e.Failure) {
+	kit := kitOf(p)
+	h := &held{stop: make(chan struct{}), key: uint64(c.Seed)*64 + uint64(i) + 1}
+	h.tag = h.key | 1<<62
+	var hdr [8]byte
+	binary.BigEndian.PutUint64(hdr[:], h.tag)
+	lst := gateChan
+	var reached func() bool
+	if c.Slow == "backlog" {
+		lst = holeChan
+		before := kit.Hole.Pending()
+		reached = func() bool {
+			for port := range kit.Hole.Pending() {
+				if !before[port] {
+					return true
+				}
+			}
+			return false
+		}
+	} else {
+		n := kit.Gate.Arrived()
+		kit.Gate.Arm(1)
+		reached = func() bool { return kit.Gate.Arrived() > n }
+	}
+	app, err := p.Dial(lst)
+	if err != nil {
+		return nil, &e2e.Failure{Kind: "other-open-failed", Info: map[string]interface{}{"err": err.Error()}}
+	}
+	h.app = app
+	app.Write(hdr[:])
+	if o := waitUntil(reached); o != e2e.Done {
+		app.Close()
+		return nil, &e2e.Failure{Kind: "other-open-" + o.String() + ":the-server-never-started-connecting-to-its-target", Inconclusive: o == e2e.Inconclusive,
+			Info: map[string]interface{}{"goroutines": e2e.Clip(e2e.Stacks(), 50000)}}
+	}
+	rec.Stat("other_connections_held:connecting/"+c.Slow, 1)
+	return h, nil
+}
+
+// releaseConnecting: the targets behind the gate accept at last. Every connection that was held in "connecting" must
+// now be served like any other: what its application wrote while it waited arrives first (the tag), then an echo.
+func releaseConnecting(p *e2e.Pair, c *scriptCase, hs []*held) *e2e.Failure {
+	kit := kitOf(p)
+	kit.Gate.Release()
+	for i, h := range hs {
+		if c.Others[i] != "connecting" {
+			continue
+		}
+		tgt, o := kit.GateTarget.NextTagged(h.tag)
+		if o != e2e.Done {
+			return &e2e.Failure{Kind: "target-never-connected", Inconclusive: o == e2e.Inconclusive, Info: map[string]interface{}{"goroutines": e2e.Clip(e2e.Stacks(), 50000)}}
+		}
+		h.tgt = tgt
+		if f := e2e.Duplex(h.app, tgt, &e2e.Stream{Key: h.key + 7, Len: 300}, &e2e.Stream{Key: h.key + 1007, Len: 300}, "c2t", "t2c", nil); f != nil {
+			return f
+		}
+	}
+	return nil
 }
 
 func chanName(i int) string { return fmt.Sprintf("ch%d", i) }
@@ -64,6 +179,9 @@ func stateSet(others []string) string {
 
 // hold puts one other connection into its state. Returns a failure if even that cannot be done.
 func hold(p *e2e.Pair, c *scriptCase, i int, rec *vcommon.Rec) (*held, *e2e.Failure) {
+	if c.Others[i] == "connecting" {
+		return holdConnecting(p, c, i, rec)
+	}
 	ch := chanName(i % c.Channels)
 	app, tgt, o, err := p.Open(ch)
 	if err != nil {
@@ -114,13 +232,33 @@ func hold(p *e2e.Pair, c *scriptCase, i int, rec *vcommon.Rec) (*held, *e2e.Fail
 func runScript(rec *vcommon.Rec, p *e2e.Pair, c *scriptCase) (stalled bool) {
 	rec.Mark(c)
 	key := fmt.Sprintf("%s/%d/%v/%v/%s/%v", c.Carrier, c.Channels, c.Others, c.Unread, c.Op, c.SameChan)
+	if c.Slow != "" {
+		key += fmt.Sprintf("/slow=%s/%v", c.Slow, c.ObsSlow)
+		if kit := kitOf(p); kit == nil {
+			rec.Inconclusive("no slow-target fixture for this pair", c)
+			return false
+		} else if c.Slow == "backlog" && kit.Hole == nil {
+			// this kernel gives no listener that lets a connect wait: the gate stands in for it
+			rec.Note("no black-hole listener here, case run with the gate instead", map[string]interface{}{"why": fmt.Sprint(kit.HoleErr)})
+			rec.Stat("backlog_cases_run_with_the_gate_instead", 1)
+			cc := *c
+			cc.Slow = "gate"
+			c = &cc
+		}
+		rec.Seen("slow target kind", c.Slow)
+	}
 	sigBase := "scripted:" + c.Carrier
 	var hs []*held
 	defer func() {
+		if kit := kitOf(p); kit != nil {
+			kit.Gate.Release()
+		}
 		for _, h := range hs {
 			close(h.stop)
 			h.app.Close()
-			h.tgt.Close()
+			if h.tgt != nil {
+				h.tgt.Close()
+			}
 		}
 	}()
 	for i := range c.Others {
@@ -191,7 +329,21 @@ func runScript(rec *vcommon.Rec, p *e2e.Pair, c *scriptCase) (stalled bool) {
 			return strings.Contains(f.Kind, "stalled")
 		}
 	}
-	app, tgt, o, err := p.Open(ch)
+	var app, tgt net.Conn
+	var o e2e.Outcome
+	var err error
+	if c.ObsSlow && c.Slow == "gate" {
+		// the gated channel itself: its target accepts this connection at once (the gate is armed for the others only)
+		ch = gateChan
+		if app, err = p.Dial(ch); err == nil {
+			var hdr [8]byte
+			binary.BigEndian.PutUint64(hdr[:], obsKey|1<<62)
+			app.Write(hdr[:])
+			tgt, o = kitOf(p).GateTarget.NextTagged(obsKey | 1<<62)
+		}
+	} else {
+		app, tgt, o, err = p.Open(ch)
+	}
 	switch {
 	case err != nil:
 		f = &e2e.Failure{Kind: "open-failed", Info: map[string]interface{}{"err": err.Error()}}
@@ -228,6 +380,17 @@ func runScript(rec *vcommon.Rec, p *e2e.Pair, c *scriptCase) (stalled bool) {
 	rec.Case(key, f == nil || !f.Inconclusive)
 	rec.Seen("(state-set of the others, op)", stateSet(c.Others)+" | "+c.Op)
 	rec.Seen("carrier", c.Carrier)
+	if f == nil && c.Slow == "gate" {
+		if rf := releaseConnecting(p, c, hs); rf != nil {
+			if rf.Inconclusive {
+				rec.Inconclusive("connecting-connection-after-its-target-accepted:"+rf.Kind, c)
+				return false
+			}
+			rec.Violation(fmt.Sprintf("%s:%s:connecting-connection-after-its-target-accepted:%s:while-others=%s", sigBase, c.Op, rf.Kind, stateSet(c.Others)), c, rf.Info)
+			return strings.Contains(rf.Kind, "stalled") || strings.Contains(rf.Kind, "never") || strings.Contains(rf.Kind, "no-end")
+		}
+		rec.Stat("connecting_connections_served_after_their_target_accepted", 1)
+	}
 	if f == nil {
 		rec.Stat("scripted_steps_completed", 1)
 		return false
@@ -278,6 +441,59 @@ func scriptCases(rec *vcommon.Rec, carrier string) []*scriptCase {
 		}
 		if c.Op == "refused-open" || c.Op == "dead-target-open" {
 			c.Others[0], c.Unread[0] = "idle", 0
+		}
+		out = append(out, c)
+	}
+	return out
+}
+
+// slowCases: at least one other connection is still being opened -- the server is connecting to its target, which does not
+// accept for as long as the case lasts (a loaded service, a full accept queue, a filtered host) -- while the operation
+// is issued on the observed connection. Further others are in any of the states, "connecting" included.
+func slowCases(rec *vcommon.Rec, carrier string) []*scriptCase {
+	rng := vcommon.NewRand(rec.Seed(), "c02slow/"+carrier)
+	var out []*scriptCase
+	n := rec.Pick(14, 63)
+	dns := strings.HasPrefix(carrier, "dns")
+	if dns {
+		n = rec.Pick(4, 9)
+	}
+	states := append(append([]string{}, otherStates...), "connecting")
+	for i := 0; i < n; i++ {
+		c := &scriptCase{Carrier: carrier, Channels: 1 + rng.Intn(3), Op: ops[i%len(ops)], Seed: rec.Seed()*10000 + 5000 + int64(i), SameChan: rng.Intn(2) == 0, Slow: "gate"}
+		if i%3 == 1 {
+			c.Slow = "backlog"
+		}
+		obsSlow := rng.Intn(3) == 0
+		c.ObsSlow = obsSlow && c.Slow == "gate"
+		c.Others, c.Unread = []string{"connecting"}, []int{0}
+		if c.Op == "refused-open" || c.Op == "dead-target-open" {
+			c.Others, c.Unread = append(c.Others, "idle"), append(c.Unread, 0)
+		}
+		extra := 0
+		if i >= len(ops) { // the first round of operations has the connecting connection as the only other
+			extra = 1 + rng.Intn(rec.Pick(3, 5))
+		}
+		budget := 3 << 20
+		if dns {
+			budget = 200 << 10
+		}
+		for j := 0; j < extra; j++ {
+			st := states[rng.Intn(len(states))]
+			u := 0
+			if strings.HasPrefix(st, "unread") {
+				u = []int{1, 4096, 70000, 300000, 1 << 20}[rng.Intn(5)]
+				if st == "unread-both" {
+					u /= 2
+				}
+				if u > budget/extra {
+					u = budget / extra
+				}
+				if u < 1 {
+					u = 1
+				}
+			}
+			c.Others, c.Unread = append(c.Others, st), append(c.Unread, u)
 		}
 		out = append(out, c)
 	}
@@ -730,7 +946,7 @@ func TestVerifC02(t *testing.T) {
 			rec.Violation("scripted:"+c.Carrier+":setup-failed", c, err.Error())
 			return
 		}
-		defer p.Close()
+		defer closePair(p)
 		runScript(rec, p, &c)
 		return
 	}
@@ -766,6 +982,9 @@ func TestVerifC02(t *testing.T) {
 	for _, c := range []string{"tcp", "ws", "udp", "tcp+starttls"} {
 		items = append(items, item{"silent", c, 0})
 	}
+	for _, c := range carriers {
+		items = append(items, item{"slow", c, 0})
+	}
 	for idx, it := range items {
 		if !rec.Mine(idx) {
 			continue
@@ -794,10 +1013,13 @@ func TestVerifC02(t *testing.T) {
 			continue
 		}
 		cs := scriptCases(rec, it.Carrier)
+		if it.Kind == "slow" {
+			cs = slowCases(rec, it.Carrier)
+		}
 		var p *e2e.Pair
 		stalls := 0
 		for i, c := range cs {
-			if i%parts != it.Part {
+			if it.Kind != "slow" && i%parts != it.Part {
 				continue
 			}
 			if p == nil {
@@ -810,7 +1032,7 @@ func TestVerifC02(t *testing.T) {
 			if runScript(rec, p, c) {
 				// after a stall the session may be wedged: start afresh, give up after two
 				stalls++
-				p.Close()
+				closePair(p)
 				p = nil
 				if stalls >= 2 {
 					rec.Note("carrier abandoned after two stalls", it)
@@ -819,7 +1041,7 @@ func TestVerifC02(t *testing.T) {
 			}
 		}
 		if p != nil {
-			p.Close()
+			closePair(p)
 		}
 	}
 }
@@ -833,5 +1055,24 @@ func startFor(c *scriptCase) (*e2e.Pair, error) {
 	chans = append(chans, e2e.ChanSpec{Name: "chx"})
 	// a fifth channel is offered by the server, but its target is down
 	chans = append(chans, e2e.ChanSpec{Name: "chd", Dead: true})
-	return e2e.Start(e2e.Options{Carrier: c.Carrier, Channels: chans, Tag: "c", ListenerNames: map[string]string{"chx": "not-offered-by-the-server"}})
+	var kit *e2e.SlowKit
+	if c.Slow != "" {
+		// two more channels, whose targets can be kept from accepting a connection
+		var err error
+		if kit, err = e2e.NewSlowKit(gateChan, holeChan, "c"); err != nil {
+			return nil, err
+		}
+		chans = append(chans, kit.Channels()...)
+	}
+	p, err := e2e.Start(e2e.Options{Carrier: c.Carrier, Channels: chans, Tag: "c", ListenerNames: map[string]string{"chx": "not-offered-by-the-server"}})
+	if kit != nil {
+		if err != nil {
+			kit.Close()
+		} else {
+			kitMu.Lock()
+			kits[p] = kit
+			kitMu.Unlock()
+		}
+	}
+	return p, err
 }
